@@ -13,16 +13,17 @@ import (
 // C12 — mutex blocks of one name are mutually exclusive, re-entrant and always released
 
 type c12State struct {
-	en       *ienv
-	occ      map[string]int
-	maxOcc   map[string]int
-	both     bool // two different names occupied at the same time
-	probs    []string
-	incs     int
-	results  []string
-	final    interface{}
-	owners   string
-	locked   []string
+	en      *ienv
+	occ     map[string]int
+	maxOcc  map[string]int
+	both    bool // two different names occupied at the same time
+	probs   []string
+	incs    int
+	results []string
+	tids    []uint64
+	final   interface{}
+	owners  string
+	locked  []string
 }
 
 // exit kinds from inside the mutex block
@@ -129,6 +130,13 @@ func c12Check(sp **c12State, wantBothPossible bool) func(e *vsched.Exec) (string
 		if fmt.Sprint(s.final) != fmt.Sprint(float64(s.incs)) {
 			probs = append(probs, fmt.Sprintf("lost update: shared counter is %v after %d increments inside the mutex", s.final, s.incs))
 		}
+		seenTid := map[uint64]bool{}
+		for _, t := range s.tids {
+			if seenTid[t] {
+				probs = append(probs, "two threads were given the same thread id (the mutex treats them as one re-entrant owner)")
+			}
+			seenTid[t] = true
+		}
 		if s.owners != "" {
 			probs = append(probs, "owner table not cleared: "+s.owners)
 		}
@@ -151,9 +159,9 @@ func c12Check(sp **c12State, wantBothPossible bool) func(e *vsched.Exec) (string
 
 func init() {
 	type variant struct {
-		name   string
-		names  [][]string // per thread: nesting of mutex names
-		q, t   int
+		name  string
+		names [][]string // per thread: nesting of mutex names
+		q, t  int
 	}
 	vars := []variant{
 		{"same-flat-2", [][]string{{"m"}, {"m"}}, 2, 3},
@@ -176,7 +184,7 @@ func init() {
 			}
 			register(&Scenario{Prop: "C12", Name: fmt.Sprintf("direct-%s-%s", v.name, c12Exits[ex].name), Quick: q, Thor: t,
 				MustSee: mustSee,
-				Desc: fmt.Sprintf("%d threads evaluating functions directly (own thread ids), mutex nesting %v, exit kind %s", len(v.names), v.names, c12Exits[ex].name),
+				Desc:    fmt.Sprintf("%d threads evaluating functions directly (own thread ids), mutex nesting %v, exit kind %s", len(v.names), v.names, c12Exits[ex].name),
 				Make: func() (func(), func(e *vsched.Exec) (string, *vsched.Violation)) {
 					var s *c12State
 					body := func() {
@@ -196,8 +204,10 @@ func init() {
 							if err != nil {
 								vsched.Fail("setup: %v", err)
 							}
-							tid := s.en.erp.NewThreadID()
 							calls[i] = func() {
+								// every host thread asks for its own id, as an embedder does
+								tid := s.en.erp.NewThreadID()
+								s.tids = append(s.tids, tid)
 								res, err := ast.Runtime.Eval(s.en.vs, make(map[string]interface{}), tid)
 								s.results = append(s.results, fmt.Sprintf("%v/%v", res, errString(err)))
 							}
